@@ -34,12 +34,12 @@ Qed.
 
 Lemma profile_maps_ok t fo (l : list (taxon * stree)) : forall s, cache_ok t fo s ->
   cache_ok t fo (fold_left (fun s pn => match up (fst pn) with
-                                         | Some u => fst (cached_map fo s u (fst pn))
+                                         | Some u => if skip_leaf t (ss_genomes s) (fst pn) then s else fst (cached_map fo s u (fst pn))
                                          | None => s
                                          end) l s).
 Proof.
   induction l as [|pn r IH]; intros s H; simpl; auto. apply IH.
-  destruct (up (fst pn)); auto. apply (cached_map_spec t fo s). exact H.
+  destruct (up (fst pn)); auto. destruct (skip_leaf t (ss_genomes s) (fst pn)); auto. apply (cached_map_spec t fo s). exact H.
 Qed.
 
 (* what each call returns when the caches are consistent: a function of the loaded data only *)
@@ -109,10 +109,10 @@ Proof.
   - destruct (profile_full t fo); simpl; auto.
     assert (Hg : In x (ss_genomes (profile_maps fo t s))).
     { unfold profile_maps. revert s Hok Hx. induction (all_nodes t) as [|pn r IH]; intros s Hok Hx; simpl; auto.
-      destruct (up (fst pn)) as [u|]; [|apply IH; auto].
+      destruct (up (fst pn)) as [u|]; [|apply IH; auto]. destruct (skip_leaf t (ss_genomes s) (fst pn)); [apply IH; auto|].
       destruct (cached_map_spec t fo s u (fst pn) Hok) as (_ & Hok' & Eg). apply IH; auto. congruence. }
     revert Hg. generalize (ss_genomes (profile_maps fo t s)). induction (all_nodes t) as [|pn r IH]; intros gs Hg; simpl; auto.
-    apply IH. apply add_genome_incl. exact Hg.
+    apply IH. destruct (is_leaf t (fst pn)); [exact Hg|apply add_genome_incl; exact Hg].
   - destruct (clust_get p (ss_clust s)); auto.
   - destruct (vis_get oid (ss_vis s)); auto. destruct (find_hog fo oid); auto.
 Qed.
@@ -123,4 +123,37 @@ Proof.
   { induction ops as [|o r IH]; intros s Hok Hin; simpl; auto.
     apply IH; [apply sstep_spec; exact Hok|apply sstep_genomes; auto]. }
   apply H; [apply cache_ok_init|exact Hx].
+Qed.
+
+(* which genomes a call may create: the whole-dataset profile creates genomes of internal nodes only (never an
+   extant genome); a lateral comparison the genome of the MRCA of its arguments; nothing else creates any *)
+Lemma add_genome_in p gs x : In x (add_genome p gs) -> In x gs \/ x = p.
+Proof. unfold add_genome. destruct (mem_tax p gs); [auto|]. intros H. apply in_app_or in H as [H|[H|[]]]; auto. Qed.
+
+Lemma profile_maps_genomes t fo (l : list (taxon * stree)) : forall s,
+  ss_genomes (fold_left (fun s pn => match up (fst pn) with
+                                     | Some u => if skip_leaf t (ss_genomes s) (fst pn) then s else fst (cached_map fo s u (fst pn))
+                                     | None => s
+                                     end) l s) = ss_genomes s.
+Proof.
+  induction l as [|pn r IH]; intros s; simpl; [reflexivity|]. rewrite IH.
+  destruct (up (fst pn)); [|reflexivity]. destruct (skip_leaf t (ss_genomes s) (fst pn)); [reflexivity|].
+  unfold cached_map. destruct (map_get (t0, fst pn) (ss_maps s)); reflexivity.
+Qed.
+
+Theorem new_genomes t fo s o x :
+  In x (ss_genomes (fst (sstep t fo s o))) ->
+  In x (ss_genomes s) \/ (o = OProfileFull /\ is_leaf t x = false) \/ (exists g1 g2, o = OLateral g1 g2 /\ x = lcs g1 g2).
+Proof.
+  destruct o as [g1 g2|g1 g2| |p|oid]; simpl.
+  - destruct (taxon_eqb g1 g2); auto. destruct (orient g1 g2) as [[a d]|e]; auto.
+    unfold cached_map. destruct (map_get (a, d) (ss_maps s)); simpl; auto.
+  - intros H. apply add_genome_in in H as [H|H]; [auto|]. right. right. eauto.
+  - destruct (profile_full t fo); simpl; auto. unfold profile_maps. rewrite profile_maps_genomes.
+    generalize (ss_genomes s) as gs. induction (all_nodes t) as [|pn r IH]; intros gs H; simpl in H; auto.
+    destruct (is_leaf t (fst pn)) eqn:El.
+    + apply IH. exact H.
+    + destruct (IH _ H) as [Hin|Hr]; [|auto]. apply add_genome_in in Hin as [Hin| ->]; auto.
+  - destruct (clust_get p (ss_clust s)); auto.
+  - destruct (vis_get oid (ss_vis s)); auto. destruct (find_hog fo oid); auto.
 Qed.
